@@ -12,7 +12,7 @@ func init() {
 	register(&propDef{
 		ID:      "C19",
 		Level:   "other",
-		Explain: "Static wiring proof for the upstream time limits, decided on value ORIGINS (c19_flow.go: where a value comes from, as access paths through helpers, parameters, locals, struct copies, closures and atomic cells, with the branch conditions under which each origin is selected) so that it does not depend on how the code is cut into functions or spelled: (F2) every http.Transport that transport.NewTransport returns is built for the call, and each limit field (ResponseHeaderTimeout, IdleConnTimeout, MaxIdleConnsPerHost; Timeout and KeepAlive of the net.Dialer whose Dial/DialContext it uses) holds, unmodified, the matching config.Proxy field read from a package-level configuration variable (pairing table); (F1) every store into that variable outside package initialisation assigns the matching part of a configuration parameter (or of config.Load's result); a program without such a store is reported at the functions that take a configuration; (F3) the program hands config.Load's result to the setter, and in main.main nothing that can reach NewTransport (call, go, callback) is started on a path on which the store has not been executed (helpers that set it on all their paths count; a callee that orders the two itself counts); (F4) every value stored into the default / skip-verify transport of the proxy and the per-route transport of a target is a NewTransport result, and the Transport of every httputil.ReverseProxy is selected per-route (when non-nil) > skip-verify (when the target says so) > default, nothing else; (F5) every reverse proxy has fabio's ErrorHandler and a Transport, and wherever the handler (or a helper) writes the status, 504 is selected on the edge where the error says Timeout(), no other test of the error except nil / sentinels disjoint from timeouts having to fail first. (D1) no context deadline is attached to the proxied HTTP request (it would outlive the response headers and cut slow bodies); (T4) no http.Transport sets MaxConnsPerHost (queueing inside net/http is covered by no timeout); Not decided: that net/http enforces the limits within the configured time (timing, delegated to net/http).",
+		Explain: "Static wiring proof for the upstream time limits, decided on value ORIGINS (c19_flow.go: where a value comes from, as access paths through helpers, parameters, locals, struct copies, closures and atomic cells, with the branch conditions under which each origin is selected; a value that only passes through a field of a small struct built for the purpose, is put there by a method or constructor, or is produced behind an interface of the repository is followed to where it was taken from) so that it does not depend on how the code is cut into functions and types or spelled: (F2) every http.Transport that transport.NewTransport returns is built for the call, and each limit field (ResponseHeaderTimeout, IdleConnTimeout, MaxIdleConnsPerHost; Timeout and KeepAlive of the net.Dialer whose Dial/DialContext it uses) holds, unmodified, the matching config.Proxy field read from a package-level configuration variable (pairing table); (F1) every store into that variable - or into an object on the way to it, as when the setter replaces the whole factory - outside package initialisation assigns the matching part of a configuration parameter (or of config.Load's result); a program without such a store is reported at the functions that take a configuration; (F3) the program hands config.Load's result to the setter, and in main.main nothing that can reach NewTransport (call, go, callback) is started on a path on which the store has not been executed (helpers that set it on all their paths count; a callee that orders the two itself counts); (F4) every value stored into the default / skip-verify transport of the proxy and the per-route transport of a target (known by name, or - for a place with another name - by the way the selection uses it) is a NewTransport result or was read from one of these places, and the Transport of every httputil.ReverseProxy is selected per-route (when non-nil) > skip-verify (when the target says so) > default, nothing else; (F5) every reverse proxy has fabio's ErrorHandler and a Transport, and wherever the handler (or a helper) writes the status, 504 is selected on the edge where the error says Timeout(), no other test of the error except nil / sentinels disjoint from timeouts having to fail first. (D1) no context deadline is attached to the proxied HTTP request (it would outlive the response headers and cut slow bodies); (T4) no http.Transport sets MaxConnsPerHost (queueing inside net/http is covered by no timeout); Not decided: that net/http enforces the limits within the configured time (timing, delegated to net/http).",
 		Run:     runC19,
 		Trusted: []string{"net/http.Transport honours ResponseHeaderTimeout/IdleConnTimeout/MaxIdleConnsPerHost/Dial; net.Dialer honours Timeout/KeepAlive",
 			"httputil.ReverseProxy calls ErrorHandler on RoundTrip errors"},
@@ -33,15 +33,16 @@ func init() {
 			{Name: "deadline errors classified as client disconnects before the timeout test", File: "proxy/http_handler.go", Old: "\tif e, ok := err.(net.Error); ok {", New: "\tif err == context.DeadlineExceeded {\n\t\tstatusCode = StatusClientClosedRequest\n\t} else if e, ok := err.(net.Error); ok {", Expect: "C19.F5"},
 			{Name: "benign: canceled tested before the timeout", File: "proxy/http_handler.go", Old: "\tif e, ok := err.(net.Error); ok {", New: "\tif err == context.Canceled {\n\t\tstatusCode = StatusClientClosedRequest\n\t} else if e, ok := err.(net.Error); ok {", Expect: ""},
 			{Name: "benign: local alias for cfg.Proxy", File: "transport/transport.go", Old: "\treturn &http.Transport{", New: "\tp := cfg.Proxy\n\t_ = p\n\treturn &http.Transport{", Expect: ""},
-		}, c19moreMutants()...),
+		}, append(c19moreMutants(), c19round2Mutants()...)...),
 	})
 }
 
 func runC19(c *Ctx) {
+	c19index(c)
 	runC19D1(c)
 	runC19T4(c)
 	runC19F5(c)
-	newT := c.fn("transport", "NewTransport") // exported API, named by the property
+	newT := c19findNewTransport(c)
 	if !c.need("C19.F2", newT, "transport.NewTransport") {
 		return
 	}
@@ -49,6 +50,40 @@ func runC19(c *Ctx) {
 	stores := runC19F1(c, newT, reqs)
 	runC19F3(c, newT, reqs, stores)
 	runC19F4(c, newT)
+}
+
+// c19findNewTransport: transport.NewTransport (exported API, named by the property); when no function of that name
+// exists (renamed, moved to another package), the exported function of the repository that returns *http.Transport
+// and is not a wrapper around another such function - provided there is exactly one.
+func c19findNewTransport(c *Ctx) *ssa.Function {
+	if f := c.fn("transport", "NewTransport"); f != nil {
+		return f
+	}
+	var cands []*ssa.Function
+	for _, f := range c.AllFns {
+		if f.Parent() != nil || f.Signature.Recv() != nil || !token.IsExported(f.Name()) || isInitFn(f) {
+			continue
+		}
+		if res := f.Signature.Results(); res.Len() == 1 && namedIs(res.At(0).Type(), "net/http.Transport") {
+			cands = append(cands, f)
+		}
+	}
+	var inner []*ssa.Function
+	for _, f := range cands {
+		wraps := false
+		for _, g := range c.region(f) {
+			for _, h := range cands {
+				wraps = wraps || (g == h && g != f)
+			}
+		}
+		if !wraps {
+			inner = append(inner, f)
+		}
+	}
+	if len(inner) == 1 {
+		return inner[0]
+	}
+	return nil
 }
 
 // c19cfgType: t (through pointers) is a configuration struct of package config; rel is its position inside
@@ -74,7 +109,33 @@ type c19cfgReq struct {
 	key  string   // "transport.cfg"
 	want []string // position inside config.Config the variable must hold: [] / [Proxy] / [Proxy DialTimeout]
 	root *ssa.Global
-	last string // last path element of key ("" when the variable is the global itself)
+	path []string // the fields that lead from the global to the variable (empty when the variable is the global itself)
+}
+
+// prefix: the key of the memory root.path[:j] (j == len(path): the variable itself).
+func (q c19cfgReq) prefix(j int) string { return c19org{root: q.root, fields: q.path[:j]}.key() }
+
+// c19fieldType: the type of field `field` of struct type t (through pointers); nil when there is none.
+func c19fieldType(t types.Type, field string) types.Type {
+	for t != nil {
+		t = types.Unalias(t)
+		if p, ok := t.Underlying().(*types.Pointer); ok {
+			t = p.Elem()
+			continue
+		}
+		break
+	}
+	if t == nil {
+		return nil
+	}
+	if st, ok := t.Underlying().(*types.Struct); ok {
+		for k := 0; k < st.NumFields(); k++ {
+			if st.Field(k).Name() == field {
+				return st.Field(k).Type()
+			}
+		}
+	}
+	return nil
 }
 
 // c19aliasStores: the stores into fields of the object built at alloc a (named type typ), made directly or through a
@@ -163,17 +224,11 @@ func runC19F2(c *Ctx, newT *ssa.Function) []c19cfgReq {
 			if !c19eq(append(append([]string{}, rel...), o.fields[k:]...), []string{"Proxy", cfgField}) {
 				return c19cfgReq{}, false
 			}
-			q := c19cfgReq{key: c19org{root: g, fields: o.fields[:k]}.key(), want: rel, root: g}
-			if k > 0 {
-				q.last = o.fields[k-1]
-			}
+			q := c19cfgReq{key: c19org{root: g, fields: o.fields[:k]}.key(), want: rel, root: g, path: append([]string{}, o.fields[:k]...)}
 			return q, true
 		}
 		// a scalar variable: its setter has to fill it from config.Proxy.<cfgField> (decided by F1)
-		q := c19cfgReq{key: o.key(), want: []string{"Proxy", cfgField}, root: g}
-		if n := len(o.fields); n > 0 {
-			q.last = o.fields[n-1]
-		}
+		q := c19cfgReq{key: o.key(), want: []string{"Proxy", cfgField}, root: g, path: append([]string{}, o.fields...)}
 		return q, true
 	}
 	checkLimit := func(at token.Pos, stores []*ssa.Store, owner, field, cfgField string) {
@@ -231,13 +286,55 @@ func runC19F2(c *Ctx, newT *ssa.Function) []c19cfgReq {
 					}
 					orgs = fl.origins(call.Call.Args[0])
 				}
+				// the caller's TLS settings must arrive: the *tls.Config parameter itself, or - when NewTransport takes
+				// the settings apart (server name, skip-verify flag) - a tls.Config built for the call from its parameters
+				var tlsParam *ssa.Parameter
+				for _, p := range newT.Params {
+					if namedIs(p.Type(), "crypto/tls.Config") {
+						tlsParam = p
+					}
+				}
+				fromParam := false
 				for _, o := range orgs {
-					p, isParam := o.root.(*ssa.Parameter)
-					if !isParam || p.Parent() != newT || len(o.fields) != 0 {
+					switch x := o.root.(type) {
+					case *ssa.Parameter:
+						if x.Parent() != newT || len(o.fields) != 0 {
+							ok = false
+						}
+						fromParam = true
+					case *ssa.Alloc:
+						if len(o.fields) != 0 || !namedIs(x.Type(), "crypto/tls.Config") {
+							ok = false
+							break
+						}
+						if tlsParam != nil { // a default for a nil parameter only
+							isNil := false
+							for _, f := range o.facts {
+								if nn, known := nilFact(f, func(v ssa.Value) bool { return v == ssa.Value(tlsParam) }); known && !nn {
+									isNil = true
+								}
+							}
+							ok = ok && isNil
+							break
+						}
+						for _, sts := range fieldStores(x) {
+							for _, fst := range sts {
+								for _, fo := range fl.origins(fst.Val) {
+									if p, isP := fo.root.(*ssa.Parameter); isP && p.Parent() == newT {
+										fromParam = true
+									}
+								}
+							}
+						}
+					case *ssa.Const: // no TLS settings asked for on this path
+						if !x.IsNil() || tlsParam != nil {
+							ok = false
+						}
+					default:
 						ok = false
 					}
 				}
-				c.check("C19.F2", "transport.NewTransport|http.Transport.TLSClientConfig", st.Pos(), ok && len(orgs) > 0, "TLSClientConfig must be NewTransport's TLS configuration parameter")
+				c.check("C19.F2", "transport.NewTransport|http.Transport.TLSClientConfig", st.Pos(), ok && fromParam, "TLSClientConfig must be NewTransport's TLS configuration parameter (or a tls.Config built for the call from its parameters)")
 			}
 		}
 	}
@@ -367,24 +464,33 @@ func runC19F1(c *Ctx, newT *ssa.Function, reqs []c19cfgReq) map[ssa.Instruction]
 				} else {
 					return
 				}
-				// cheap pre-filter before resolving the address
+				// the store writes the variable itself or an object on the way to it (`std = &factory{cfg: c}` for the
+				// variable std.cfg): j = how much of the path the target covers; the rest is selected from the value
+				j := -1
 				switch a := addr.(type) {
 				case *ssa.Global:
-					if a != q.root || q.last != "" {
+					if a != q.root {
 						return
 					}
+					j = 0
 				case *ssa.FieldAddr:
-					if q.last == "" || fieldName(a.X.Type(), a.Field) != q.last {
-						return
+					fname := fieldName(a.X.Type(), a.Field)
+					var keys []string
+					for jj := len(q.path); jj >= 1 && j < 0; jj-- { // cheap pre-filter before resolving the address
+						if q.path[jj-1] != fname {
+							continue
+						}
+						if keys == nil {
+							keys = c19addrKeys(addrFl, addr)
+						}
+						for _, k := range keys {
+							if k == q.prefix(jj) {
+								j = jj
+							}
+						}
 					}
-				default:
-					return
 				}
-				hit := false
-				for _, k := range c19addrKeys(addrFl, addr) {
-					hit = hit || k == q.key
-				}
-				if !hit {
+				if j < 0 {
 					return
 				}
 				n++
@@ -392,6 +498,23 @@ func runC19F1(c *Ctx, newT *ssa.Function, reqs []c19cfgReq) map[ssa.Instruction]
 				ok, got := true, ""
 				for _, v := range vals {
 					orgs := valFl.origins(v)
+					if j < len(q.path) {
+						var sub []c19org
+						for _, o := range orgs {
+							os, t := []c19org{o}, o.types[len(o.types)-1]
+							for k := j; k < len(q.path) && len(os) > 0; k++ {
+								ft := c19fieldType(t, q.path[k])
+								if ft == nil {
+									os = nil // a value without that field (nil, another type behind an interface)
+									ok, got = false, o.key()
+									break
+								}
+								os, t = valFl.sel(os, t, q.path[k], ft), ft
+							}
+							sub = append(sub, os...)
+						}
+						orgs = sub
+					}
 					if len(orgs) == 0 {
 						ok = false
 					}
@@ -630,6 +753,32 @@ func c19routeField(v ssa.Value, field string) bool {
 	return pkg == repoMod+"/route" && fieldName(owner, idx) == field
 }
 
+// c19routeFieldVal: v is field `field` of a struct of package route, read directly or carried to this place (a local,
+// a parameter of a helper, a field of a small struct built for the purpose): every origin of v is such a field.
+func c19routeFieldVal(v ssa.Value, fields ...string) bool {
+	has := func(f string) bool {
+		for _, x := range fields {
+			if x == f {
+				return true
+			}
+		}
+		return false
+	}
+	for _, f := range fields {
+		if c19routeField(v, f) {
+			return true
+		}
+	}
+	orgs := (&c19flow{}).origins(v)
+	for _, o := range orgs {
+		pkg, _, f := o.lastField()
+		if pkg != repoMod+"/route" || !has(f) || len(o.fields) == 0 || o.fields[len(o.fields)-1] != f {
+			return false
+		}
+	}
+	return len(orgs) > 0
+}
+
 // c19setByHelperUnlessNil: i is dominated by a call of a helper that sets the configuration on every path except
 // those on which it returns nil (`cfg := loadConfig(); if cfg == nil { return }`), and i executes only when that
 // result is not nil.
@@ -673,11 +822,18 @@ func c19setByHelperUnlessNil(f *ssa.Function, i ssa.Instruction, isStore func(ss
 			}
 		}
 		for k := 0; k < h.Signature.Results().Len(); k++ {
-			allNil := len(rets) > 0
-			for _, r := range rets {
+			// on every return that skips the setter, result k is nil, or the same boolean constant (`return nil, false`)
+			allNil, allBool, boolVal := len(rets) > 0, len(rets) > 0, false
+			for n, r := range rets {
 				allNil = allNil && k < len(r.Results) && isNilConst(r.Results[k])
+				b, isB := false, false
+				if k < len(r.Results) {
+					b, isB = constBool(r.Results[k])
+				}
+				allBool = allBool && isB && (n == 0 || b == boolVal)
+				boolVal = b
 			}
-			if !allNil {
+			if !allNil && !allBool {
 				continue
 			}
 			var isRes func(v ssa.Value) bool
@@ -700,8 +856,15 @@ func c19setByHelperUnlessNil(f *ssa.Function, i ssa.Instruction, isStore func(ss
 				e, isE := v.(*ssa.Extract)
 				return isE && e.Tuple == ssa.Value(call) && e.Index == k
 			}
-			if knownNonNil(i.Block(), isRes) {
+			if allNil && knownNonNil(i.Block(), isRes) {
 				found = true
+			}
+			if allBool && !allNil {
+				for _, ft := range factsAt(i.Block()) {
+					if isRes(ft.Cond) && ft.Truth == !boolVal {
+						found = true
+					}
+				}
 			}
 		}
 	})
@@ -711,6 +874,108 @@ func c19setByHelperUnlessNil(f *ssa.Function, i ssa.Instruction, isStore func(ss
 // F4: every transport the HTTP proxy can use is a NewTransport result, and the reverse proxy is given the per-route
 // transport when there is one, else the skip-verify transport when the target asks for it, else the default.
 func runC19F4(c *Ctx, newT *ssa.Function) {
+	// (1) selection: the origins of the Transport of every reverse proxy the HTTP proxy builds. The three places are
+	// known by name (c19transportRole); a place with another name (field renamed, pools moved into a struct of their
+	// own) gets its role from the way it is selected: a field of a struct of package route is the per-route transport,
+	// the place used when the target says TLSSkipVerify is the skip-verify transport, the one used otherwise the default.
+	derived := map[string]string{} // "pkg.Type.field" -> role
+	roleOf := func(pkg, typ, field string) string {
+		if r := c19transportRole(pkg, field); r != "" {
+			return r
+		}
+		return derived[pkg+"."+typ+"."+field]
+	}
+	// placeOf: the origin is a read of a transport-typed field of a repository struct (not a carrier).
+	placeOf := func(o c19org) (pkg, typ, field string, ok bool) {
+		pkg, typ, field = o.lastField()
+		if field == "" || len(o.fields) == 0 || o.fields[len(o.fields)-1] != field || !strings.HasPrefix(pkg, repoMod) {
+			return pkg, typ, field, false
+		}
+		for k := len(o.via) - 1; k >= 0; k-- {
+			if v := o.via[k]; !v.carried {
+				ft := c19fieldType(v.owner, field)
+				return pkg, typ, field, ft != nil && (namedIs(ft, "net/http.Transport") || typeStr(ft) == "net/http.RoundTripper")
+			}
+		}
+		return pkg, typ, field, false
+	}
+	sel := &c19flow{}
+	nSel := 0
+	for _, site := range c19reverseProxies(c) {
+		for _, st := range site.fields["Transport"] {
+			nSel++
+			key := fnKey(st.Parent()) + "|transport selection"
+			orgs := sel.origins(st.Val)
+			routeNames := []string{"Transport"}
+			for _, o := range orgs {
+				if pkg, _, field, ok := placeOf(o); ok && pkg == repoMod+"/route" && field != "Transport" {
+					routeNames = append(routeNames, field)
+				}
+			}
+			isRouteTr := func(v ssa.Value) bool { return c19routeFieldVal(v, routeNames...) }
+			var sawRoute, sawInsecure, sawDefault bool
+			other := ""
+			usedAs := map[string]map[string]bool{} // derived place -> roles it is used in
+			for _, o := range orgs {
+				facts := c19expand(o.facts)
+				guard, notRoute, isRoute := false, false, false
+				for _, f := range facts {
+					if c19routeFieldVal(f.Cond, "TLSSkipVerify") && f.Truth {
+						guard = true
+					}
+					if nn, ok := nilFact(f, isRouteTr); ok {
+						notRoute = notRoute || !nn
+						isRoute = isRoute || nn
+					}
+				}
+				pkg, typ, field := o.lastField()
+				role := c19transportRole(pkg, field)
+				if role == "" {
+					if _, _, _, ok := placeOf(o); ok {
+						switch {
+						case pkg == repoMod+"/route":
+							role = "route"
+						case guard && notRoute:
+							role = "insecure"
+						default:
+							role = "default"
+						}
+						k := pkg + "." + typ + "." + field
+						if usedAs[k] == nil {
+							usedAs[k] = map[string]bool{}
+						}
+						usedAs[k][role] = true
+						derived[k] = role
+					}
+				}
+				switch role {
+				case "route":
+					sawRoute = sawRoute || isRoute
+				case "insecure":
+					sawInsecure = sawInsecure || (guard && notRoute)
+				case "default":
+					sawDefault = true
+				default:
+					if k, isK := o.root.(*ssa.Const); !isK || !k.IsNil() {
+						other = o.key()
+					}
+				}
+			}
+			for k, rs := range usedAs {
+				if len(rs) > 1 { // one pool for skip-verify targets and for the others: the selection is not a selection
+					sawInsecure = false
+					derived[k] = "default"
+				}
+			}
+			c.check("C19.F4", key, st.Pos(), sawRoute && sawInsecure && sawDefault,
+				"transport selection must be: per-route transport when t.Transport != nil, else insecure transport when t.TLSSkipVerify, else default")
+			c.check("C19.F4", key+"|only configured transports", st.Pos(), other == "",
+				"the reverse proxy can be given a transport that is none of the three built by transport.NewTransport: "+other)
+		}
+	}
+	c.atLeast("C19.F4", "transports handed to a reverse proxy", nSel, 1)
+
+	// (2) what is kept in the three places
 	fl := &c19flow{opaque: func(f *ssa.Function) bool { return f == newT }}
 	roles := map[string]int{}
 	for _, f := range c.AllFns {
@@ -725,19 +990,29 @@ func runC19F4(c *Ctx, newT *ssa.Function) {
 			}
 			fname := fieldName(fa.X.Type(), fa.Field)
 			pkg, tname := c19named(fa.X.Type())
-			role := c19transportRole(pkg, fname)
+			role := roleOf(pkg, tname, fname)
 			if role == "" || isNilConst(stripIface(st.Val)) { // nil = "no transport of its own": selection falls through
 				return
 			}
 			owner := pkg[strings.LastIndex(pkg, "/")+1:] + "." + tname
-			roles[role]++
 			orgs := fl.origins(st.Val)
 			ok, got := len(orgs) > 0, ""
+			built := false
 			for _, o := range orgs {
-				call, isCall := o.root.(*ssa.Call)
-				if !isCall || call.Call.StaticCallee() != newT || len(o.fields) != 0 {
-					ok, got = false, o.key()
+				if call, isCall := o.root.(*ssa.Call); isCall && call.Call.StaticCallee() == newT && len(o.fields) == 0 {
+					built = true
+					continue
 				}
+				// a transport taken from one of the three places (a small struct that carries the selected transport to
+				// where the reverse proxy is built may itself have a field called Transport): what is stored THERE is
+				// checked by this rule, so by induction the value is a NewTransport result
+				if fp, ft, ff := o.lastField(); len(o.fields) > 0 && o.fields[len(o.fields)-1] == ff && roleOf(fp, ft, ff) != "" {
+					continue
+				}
+				ok, got = false, o.key()
+			}
+			if built || !ok {
+				roles[role]++ // the vacuity guard counts the places that are filled with a transport built here
 			}
 			c.check("C19.F4", fnKey(f)+"|"+owner+"."+fname, st.Pos(), ok,
 				owner+"."+fname+" must be a transport.NewTransport result so that the configured limits apply; got "+got)
@@ -746,53 +1021,6 @@ func runC19F4(c *Ctx, newT *ssa.Function) {
 	for _, role := range []string{"default", "insecure", "route"} {
 		c.atLeast("C19.F4", "stores of the "+role+" transport of the HTTP proxy", roles[role], 1)
 	}
-
-	// selection: the origins of the Transport of every reverse proxy the HTTP proxy builds
-	sel := &c19flow{}
-	nSel := 0
-	for _, site := range c19reverseProxies(c) {
-		for _, st := range site.fields["Transport"] {
-			nSel++
-			key := fnKey(st.Parent()) + "|transport selection"
-			var sawRoute, sawInsecure, sawDefault bool
-			other := ""
-			isRouteTr := func(v ssa.Value) bool { return c19routeField(v, "Transport") }
-			for _, o := range sel.origins(st.Val) {
-				facts := c19expand(o.facts)
-				pkg, _, field := o.lastField()
-				switch c19transportRole(pkg, field) {
-				case "route":
-					for _, f := range facts {
-						if nn, ok := nilFact(f, isRouteTr); ok && nn {
-							sawRoute = true
-						}
-					}
-				case "insecure":
-					guard, notRoute := false, false
-					for _, f := range facts {
-						if c19routeField(f.Cond, "TLSSkipVerify") && f.Truth {
-							guard = true
-						}
-						if nn, ok := nilFact(f, isRouteTr); ok && !nn {
-							notRoute = true
-						}
-					}
-					sawInsecure = sawInsecure || (guard && notRoute)
-				case "default":
-					sawDefault = true
-				default:
-					if k, isK := o.root.(*ssa.Const); !isK || !k.IsNil() {
-						other = o.key()
-					}
-				}
-			}
-			c.check("C19.F4", key, st.Pos(), sawRoute && sawInsecure && sawDefault,
-				"transport selection must be: per-route transport when t.Transport != nil, else insecure transport when t.TLSSkipVerify, else default")
-			c.check("C19.F4", key+"|only configured transports", st.Pos(), other == "",
-				"the reverse proxy can be given a transport that is none of the three built by transport.NewTransport: "+other)
-		}
-	}
-	c.atLeast("C19.F4", "transports handed to a reverse proxy", nSel, 1)
 }
 
 // c19rp is one construction of an httputil.ReverseProxy (a literal, a new(T) filled in, or a constructor result that
@@ -844,6 +1072,27 @@ func c19reverseProxies(c *Ctx) []c19rp {
 	return out
 }
 
+// c19funcsOf: funcsOf, also for a function value that reaches this place through a field of a struct built for the
+// purpose, a parameter or a helper result.
+func c19funcsOf(v ssa.Value) []*ssa.Function {
+	out := funcsOf(v)
+	if len(out) > 0 {
+		return out
+	}
+	for _, o := range (&c19flow{}).origins(v) {
+		if len(o.fields) != 0 {
+			return nil // one origin is not visible: the set would be incomplete
+		}
+		switch o.root.(type) {
+		case *ssa.Function, *ssa.MakeClosure:
+			out = append(out, funcsOf(o.root)...)
+		default:
+			return nil
+		}
+	}
+	return out
+}
+
 func stripIface(v ssa.Value) ssa.Value {
 	for {
 		switch x := v.(type) {
@@ -866,7 +1115,7 @@ func runC19F5(c *Ctx) {
 		n++
 		ok := false
 		for _, st := range site.fields["ErrorHandler"] {
-			for _, h := range funcsOf(st.Val) {
+			for _, h := range c19funcsOf(st.Val) {
 				if isRepoFn(h) && len(h.Blocks) > 0 {
 					ok = true
 					dup := false
